@@ -29,7 +29,7 @@ TNext ==
     \/ Is("shimw") /\ P_Files(E.files = E.tfiles)
     \/ Is("crash") /\ P_Crash(E.files = E.tfiles)
     \/ Is("end") /\ P_End(E.bufs, E.files = E.tfiles)
-    \/ Is("readable") /\ P_Readable(E.r, E.ok)
+    \/ Is("readable") /\ P_Readable(E.r, E.ok, E.grace)
     \/ /\ l <= Len(Rec) /\ Rec[l].ev \in {"note"}
        /\ l' = l + 1 /\ UNCHANGED pvars
 
